@@ -6,7 +6,7 @@ The REAL SinglePhaseModel / HomogenizationModel are driven with duck-typed therm
 `_getFluxes` evaluation is logged by wrapping methods at run time (raw fluxes before the boundary conditions, fluxes
 after them, dXdt, iterator input/output, postProcess output, setup output) and replayed through the model driver.
 The direct oracle evaluates the property on the logged implementation states, independently of the Lean model."""
-import contextlib, io, math
+import contextlib, io, math, warnings
 import numpy as np
 import vlib
 from vlib import Result, enc_list, enc_ilist, f2b, Toks, close
@@ -344,8 +344,9 @@ def build(case):
 
 
 # ============================================================================ logged run of the real code
-def run_real(case):
+def run_real(case, factory=None):
     """drive the real model over the case's history with run-time wrappers; returns a log dict"""
+    build = factory or globals()['build']
     vlib.use_repo()
     import kawin.solver.Solver as S
     import kawin.solver.Iterators as IT
@@ -450,7 +451,7 @@ def run_real(case):
                     break
     finally:
         S.ExplicitEulerIterator, S.RK4Iterator, HM.computeHomogenizationFunction = saved
-    log['cleared'] = therm.cleared
+    log['cleared'] = getattr(therm, 'cleared', None)
     log['model'] = m
     return log
 
@@ -835,11 +836,13 @@ def fingerprint(case, log):
     return (case['model'], case['scheme'], log['N'], log['E'], case['therm'], case['tseed'])
 
 
-def process(ctx, res, cases, oracle_only=False):
+def process(ctx, res, cases, oracle_only=False, factory=None):
     """run the real code on the cases, oracle, and (unless oracle_only) replay through the model driver"""
     batch, lines = [], []
     for case in cases:
-        log = run_real(case)
+        with warnings.catch_warnings():
+            warnings.simplefilter('ignore')       # RK4 stage states below 0 give log(negative) in the real code: counted as nonfinite-run-skipped
+            log = run_real(case, factory)
         m = log.pop('model')
         E, N = log['E'], log['N']
         nsteps = len(log['steps'])
@@ -889,53 +892,64 @@ def _flush(res, batch, lines):
             compare_aux(res, c, a[0], ans[pos + 1 + q], a[2])
 
 
-def real_db_cases(ctx, res):
-    """thorough: Ni-Cr-Al single-phase couple and Fe-Cr-Ni homogenization couple on the real pycalphad database"""
+_REAL = {}
+
+
+def real_db_factory(case):
+    """real pycalphad thermodynamics (kawin/tests/datasets): Ni-Cr-Al single-phase couple, Fe-Cr-Ni homogenization couple"""
     vlib.use_repo()
+    from kawin.thermo import GeneralThermodynamics
+    from kawin.tests.datasets import NICRAL_TDB, FECRNI_DB
+    from kawin.diffusion import SinglePhaseModel, HomogenizationModel
+    names, N = case['names'], case['N']
+    zlim = [case['z0'], case['z0'] + case['L']]
+    if case['real_db'] == 'NiCrAl-single':
+        th = _REAL.get('nicral') or _REAL.setdefault('nicral', GeneralThermodynamics(NICRAL_TDB, names, ['FCC_A1']))
+        m = SinglePhaseModel(zlim, N, names, ['FCC_A1'], thermodynamics=th)
+    else:
+        th = _REAL.get('fecrni') or _REAL.setdefault('fecrni', GeneralThermodynamics(FECRNI_DB, names, ['FCC_A1', 'BCC_A2']))
+        m = HomogenizationModel(zlim, N, names, ['FCC_A1', 'BCC_A2'], thermodynamics=th)
+        m.setMobilityFunction(case['hfunc']); m.setIdealEps(case['heps'])
+    for e, steps in enumerate(case['profile']):
+        st = steps[0]
+        if st[0] == 'step':
+            m.setCompositionStep(st[1], st[2], st[3], names[e + 1])
+        else:
+            m.setCompositionLinear(st[1], st[2], names[e + 1])
+    m.setTemperature(case['temp'][1])
+    spec = []
+    for e, sides in enumerate(case['bc']):
+        row = []
+        for k, v in sides:
+            row += [1 if k == 'comp' else 0, float(v)]
+        spec.append(row)
+        m.setBC(row[0], row[1], row[2], row[3], element=names[e + 1])
+    return m, spec, th
+
+
+def real_db_list():
+    base = dict(minC=1e-8, pkind='normal', bcapi='setBC', maxDtFrac=1, record=True, therm='pycalphad', tseed=0, scale=0.0,
+                nphases=2, hpost='none', mobless=False)
+    a = dict(base, real_db='NiCrAl-single', model='single', names=['NI', 'CR', 'AL'], N=20, z0=-1e-3, L=2e-3,
+             profile=[[['step', 0.077, 0.359, 0.0]], [['step', 0.054, 0.062, 0.0]]],
+             bc=[[['flux0', 0.0], ['comp', 0.3]], [['flux', 1e-12], ['flux0', 0.0]]],
+             scheme='rk4', ops=[['solve', 3, 1.0], ['solve', 2, 1.0], ['setup'], ['solve', 2, 1.0]], temp=['iso', 1473.15, 0, 0],
+             hfunc='wiener upper', heps=0.05)
+    b = dict(base, real_db='FeCrNi-homog', model='homog', names=['FE', 'CR', 'NI'], N=12, z0=-5e-4, L=1e-3,
+             profile=[[['linear', 0.257, 0.423]], [['linear', 0.065, 0.276]]],
+             bc=[[['flux0', 0.0], ['flux0', 0.0]], [['comp', 0.07], ['flux0', 0.0]]],
+             scheme='euler', ops=[['solve', 3, 1.0], ['solve', 3, 1.0], ['solve', 2, 1.0]], temp=['iso', 1373.15, 0, 0],
+             hfunc='hashin lower', heps=0.01)
+    c = dict(a, scheme='euler', bc=[[['flux0', 0.0], ['flux0', 0.0]], [['default', 0.0], ['default', 0.0]]], ops=[['solve', 4, 1.0]] * 3)
+    return [a, b, c]
+
+
+def real_db_cases(ctx, res, oracle_only=False):
+    """thorough: the full logged-run check on real pycalphad thermodynamics"""
     import time
     t0 = time.time()
-    try:
-        from kawin.thermo import GeneralThermodynamics
-        from kawin.tests.datasets import NICRAL_TDB, FECRNI_DB
-        from kawin.diffusion import SinglePhaseModel, HomogenizationModel
-        from kawin.solver.Solver import SolverType
-    except Exception as e:
-        res.count('real-db-unavailable'); return
-    runs = []
-    th = GeneralThermodynamics(NICRAL_TDB, ['NI', 'CR', 'AL'], ['FCC_A1'])
-    m = SinglePhaseModel([-1e-3, 1e-3], 20, ['NI', 'CR', 'AL'], ['FCC_A1'], thermodynamics=th)
-    m.setCompositionStep(0.077, 0.359, 0, 'CR'); m.setCompositionStep(0.054, 0.062, 0, 'AL')
-    m.setBC('flux', 0, 'composition', 0.3, element='CR')
-    m.setTemperature(1473.15)
-    runs.append(('NiCrAl-single', m, [[0, 0.0, 1, 0.3], [0, 0.0, 0, 0.0]], 3 * 3600.0, SolverType.RK4))
-    th2 = GeneralThermodynamics(FECRNI_DB, ['FE', 'CR', 'NI'], ['FCC_A1', 'BCC_A2'])
-    m2 = HomogenizationModel([-5e-4, 5e-4], 12, ['FE', 'CR', 'NI'], ['FCC_A1', 'BCC_A2'], thermodynamics=th2)
-    m2.setCompositionLinear(0.257, 0.423, 'CR'); m2.setCompositionLinear(0.065, 0.276, 'NI')
-    m2.setTemperature(1373.15); m2.setMobilityFunction('hashin lower'); m2.setIdealEps(0.01)
-    runs.append(('FeCrNi-homog', m2, [[0, 0.0, 0, 0.0], [0, 0.0, 0, 0.0]], None, SolverType.EXPLICITEULER))
-    for name, m, spec, simt, st in runs:
-        sink = io.StringIO()
-        with contextlib.redirect_stdout(sink):
-            m.setup()
-            if simt is None:
-                t, x = m.getCurrentX(); simt = 3 * float(m.getDt(m.getdXdt(t, x)))
-            x0 = m.x.copy()
-            sums = [x0.sum(axis=1)]
-            for call in range(3):
-                before = m.x.copy()
-                m.solve(simt, solverType=st, minDtFrac=0.2)
-                sums.append(m.x.sum(axis=1))
-        res.case(('real-db', name), True); res.count('real-db:' + name)
-        N = m.N
-        for e, row in enumerate(spec):
-            if row[0] == 0 and row[2] == 0:
-                drift = float(sums[-1][e] - sums[0][e])
-                if abs(drift) > 1e-9 * N:
-                    res.violate('budget-history-closed', '%s element %d: closed system, mesh sum drifted by %.3e over 3 solve calls' % (name, e, drift), dict(real_db=name), drift, 0.0)
-            if row[2] == 1 and m.x[e, -1] != x0[e, -1]:
-                res.violate('fixed-node-right', '%s element %d: right fixed node moved' % (name, e), dict(real_db=name), float(m.x[e, -1]), float(x0[e, -1]))
-        if m.x.min() < m.constraints.minComposition or m.x.max() > 1 - m.constraints.minComposition:
-            res.violate('bounds', '%s: composition outside bounds' % name, dict(real_db=name))
+    process(ctx, res, real_db_list(), oracle_only, factory=real_db_factory)
+    res.count('real-db-cases', 3)
     res.extra['real_db_seconds'] = round(time.time() - t0, 1)
 
 
@@ -945,12 +959,12 @@ def corr(ctx, ncases=None, oracle_only=False):
                 'profile builders x per-element/side BC (default, flux 0, flux value, composition) x temperature kind x iterator x 1-5 solve calls (+ bare setup calls) x 1-8 steps each; '
                 'non-trivial = at least one accepted step on a valid profile; distinct = (model, iterator, N, E, stub kind, stub seed)')
     res.monitored = list(MONITORED)
-    n = ncases or ctx.n(110, 2600)
+    n = ncases or ctx.n(420, 9000)
     cases = [gen_case(ctx.rng, ctx.thorough) for _ in range(n)]
     process(ctx, res, cases, oracle_only or not ctx.driver_ok)
     if ctx.thorough and not oracle_only:
         try:
-            real_db_cases(ctx, res)
+            real_db_cases(ctx, res, oracle_only or not ctx.driver_ok)
         except Exception as e:
             import traceback
             res.extra['real_db_error'] = traceback.format_exc()[-800:]
@@ -966,7 +980,7 @@ def search(ctx, broken):
 def replay(ctx, entry):
     c = entry['violation']['case']
     if 'real_db' in c:
-        r = Result(); real_db_cases(ctx, r)
+        r = Result(); ctx.driver_ok = False; real_db_cases(ctx, r, oracle_only=True)
     else:
         keys = ['model', 'names', 'N', 'z0', 'L', 'minC', 'profile', 'pkind', 'bc', 'bcapi', 'scheme', 'ops', 'temp', 'therm', 'tseed',
                 'scale', 'maxDtFrac', 'record', 'hfunc', 'heps', 'nphases', 'hpost', 'mobless']
